@@ -323,6 +323,8 @@ def run(ctx):
                    "instead of refused") if direct else "content stores not found", fi.where)
     from rules import c13 as _c13
     _c13.check_init_through_setter(ctx, "C18.b", m)
+    from rules import c12 as _c12
+    _c12.check_copy_contents(ctx, "C18.b", m)    # temporaries of a refused operation never share a store with the original
     # co-update of the two arrays outside the setters
     for c in m.classes.values():
         if not m.is_subclass(c, "HistogramBase"):
